@@ -294,6 +294,9 @@ def corpus():
         for fmt in ("jtv", "cdt"):
             out.append({"op": "export_table", "tag": "corpus-V",
                         "in": {"samples": [{"id": x, "bins": bins, "log2_f": [0.5, -0.25]} for x in ids], "fmt": fmt}})
+    # header-only bin files
+    out.append({"op": "export_table", "tag": "corpus-empty",
+                "in": {"samples": [{"id": "a", "bins": [], "log2_f": []}, {"id": "b", "bins": [], "log2_f": []}], "fmt": "jtv"}})
     return out
 
 
@@ -723,6 +726,15 @@ def judge(case, impl, resp):
 def classify_reserved_sample_id(case, impl, resp):
     """a jtv/cdt input in which a sample is named like one of merge_samples' own columns"""
     return case["op"] == "export_table" and any(sm["id"] in RESERVED for sm in case["in"]["samples"])
+
+
+def classify_bed_reference_copies(case, impl, resp):
+    """export_bed without a cn column on a table where the class table (PAR genome, naming style of the first
+    row) and the chromosome name alone can give different reference copies (finding U, pre-fix code)"""
+    if case["op"] != "export_bed" or case["in"]["has_cn"]:
+        return False
+    rows = case["in"]["rows"]
+    return case["in"]["par"] is not None or len({r[0].startswith("chr") for r in rows}) > 1
 
 
 def nontrivial(case, impl, resp):
